@@ -407,7 +407,19 @@ def job_yaml_roundtrip(j):
             kw = {}
             if j.get('range') is not None:
                 kw['range'] = tuple(j['range'])
-            obj = ThermochemGroup(j.get('H'), j.get('S'), dict(zip(j.get('Ts', []), j.get('Cps', []))), j['T_ref'], **kw)
+            H_, S_, Ts_, Cps_ = j.get('H'), j.get('S'), j.get('Ts', []), j.get('Cps', [])
+            if j.get('np_scalars'):
+                # the caller's numbers are NumPy scalars (what arithmetic on arrays hands back)
+                H_ = None if H_ is None else np.float64(H_)
+                S_ = None if S_ is None else np.float64(S_)
+                Cps_ = [np.float64(c) for c in Cps_]
+                Ts_ = [np.float64(t) for t in Ts_]
+            if j.get('via_update') and Ts_:
+                # assembled by merging: the table first, the reference values from a second object
+                obj = ThermochemGroup(None, None, dict(zip(Ts_, Cps_)), j['T_ref'], **kw)
+                obj.update(ThermochemGroup(H_, S_, {}, j['T_ref'], **kw))
+            else:
+                obj = ThermochemGroup(H_, S_, dict(zip(Ts_, Cps_)), j['T_ref'], **kw)
     except Exception as e:
         return {'ctor_exc': exc_name(e)}
     before = snap(obj)
